@@ -2216,16 +2216,18 @@ func paginateList[P listParams, R listResult[T], T any](fs *featureSet[T], pageS
 	var features []T
 	for f := range seq {
 		count++
-		// If we've seen pageSize + 1 elements, we've gathered enough info to determine
-		// if there's a next page. Stop processing the sequence.
-		if count == pageSize+1 {
+		// If we've seen more than pageSize elements, we've gathered enough info to
+		// determine if there's a next page. Stop processing the sequence.
+		// (count > pageSize rather than count == pageSize+1: the page size may be
+		// as large as math.MaxInt, "no limit".)
+		if count > pageSize {
 			break
 		}
 		features = append(features, f)
 	}
 	setFunc(res, features)
 	// No remaining pages.
-	if count < pageSize+1 {
+	if count <= pageSize {
 		return res, nil
 	}
 	nextCursor, err := encodeCursor(fs.uniqueID(features[len(features)-1]))
